@@ -213,7 +213,7 @@ def get_unescaped_str(string: str, qm: str) -> str:
     for i in string:
         if i == qm:
             out.append(f"\\{qm}")
-        elif ord(i) > 255:
+        elif ord(i) > 255 and not 0xD800 <= ord(i) <= 0xDFFF:
             out.append(i)
         else:
             out.append(ascii(i)[1:-1])
@@ -226,6 +226,9 @@ def unparse_Constant(node: Constant, qm: typing.Literal["'", '"']) -> unparse_ge
     if isinstance(node.value, str):
         value = get_unescaped_str(node.value, qm)
         return f"{qm}{value}{qm}"
+    if isinstance(node.value, (float, complex)):
+        # repr() of a non-finite number is a name, not a literal
+        return repr(node.value).replace("inf", "1e309")
     return repr(node.value)
     yield
 
